@@ -62,6 +62,10 @@ CLAIMED = {
          "Machine-checked proof (C09_history / C09_emergency_iff) that after every processed signal of every history the model emits the full emergency sequence in order iff the latest engine reading exceeds 2200 rpm or the latest rotation reading is an inclinometer reading beyond +45 degrees of roll or pitch, and nothing otherwise; the inclinometer branches are regenerated in source order so a re-ordering or a moved threshold breaks the obligation; tied to the real director fed one signal at a time through real broadcast channels.",
          "nalgebra's Euler extraction is outside the model (the model is stated on the extracted angles' f32 bit patterns; beyond +-90 degrees of pitch the extraction returns yaw = pi and the code does not classify the reading as tilt). Supervised mode is hard-wired. One genuine defect found and fixed (branch order).",
          "DESIGN.md section 4 C09"),
+ "C18": ("Lean 4 theorems over the glonax-input pipeline model (record decoder, device mappers, interlock state machine: every state x every scancode, lifted to sequences of any length by induction) and the glonaxctl word/packet table + in-process differential runs of the real Event::from/map/InputState::try_from, end-to-end runs of the real glonaxctl (and, thorough, glonax-input on a FIFO) against a stub daemon",
+         "Machine-checked proof of C18_locked_means_locked, C18_abort_stops, C18_startup_locked, C18_deadband, C18_half_scale, C18_engine_range, C18_no_crash, C18_arith_in_range, C18_sequences and the CLI theorems; tied to the code by all 112 reachable interlock states x all scancodes x boundary/random (thorough: all 65536) axis values, raw records of all four types x every number x extreme values in all four modes, the real glonaxctl binary for every toggle sub-command x accepted/rejected words x compatible/incompatible daemon, and the real glonax-input binary fed through a FIFO (start-up state, failsafe flag, forwarding).",
+         "The start-up state and --fail-safe default of glonax-input's main are regenerated from the source by the extractor and observed end to end only in the thorough tier (and in the search step). clap argument parsing is trusted. One genuine defect found and fixed (axis negation at -32768).",
+         "DESIGN.md section 4 C18"),
 }
 NOT_YET = "check not built yet in this round (planned: Lean model + correspondence, see DESIGN.md section 4)"
 
